@@ -424,7 +424,7 @@ def _alarm(signum, frame):
     raise _Stuck()
 
 
-STEP_WALL_S = 300   # one step normally takes milliseconds; the only real-time bound here
+STEP_WALL_S = 90   # one step normally takes milliseconds; the only real-time bound here
 
 
 def _exec_ops(lib, case, ops, V, stats):
